@@ -233,3 +233,30 @@ def lex(data):
 
 def code_texts(tokens):
     return [t.text for t in tokens]
+
+
+STATEMENT_KEYWORDS = {b"local", b"return", b"if", b"while", b"for", b"repeat", b"function", b"do", b"end", b"break",
+                      b"until", b"then", b"else", b"elseif"}
+
+
+def ends_in_type_annotation(src):
+    """the last statement of the file is a type declaration, or a `local` with a type annotation and no value:
+    its last code token belongs to a TYPE (used to name a recorded append_text_comment defect)"""
+    try:
+        toks, _ = lex(src.encode("utf-8") if isinstance(src, str) else src)
+    except LexError:
+        return False
+    for i in range(len(toks) - 1, -1, -1):
+        t = toks[i]
+        if t.kind != "name":
+            continue
+        if t.text == b"type" and i + 2 < len(toks) and toks[i + 1].kind == "name" and toks[i + 1].text not in STATEMENT_KEYWORDS \
+                and toks[i + 2].text in (b"=", b"<") and (i == 0 or toks[i - 1].text not in (b".", b":")):
+            return not any(x.text in STATEMENT_KEYWORDS for x in toks[i + 1:])
+        if t.text == b"local":
+            rest = toks[i + 1:]
+            return bool(rest) and rest[0].text != b"function" and any(x.text == b":" for x in rest) \
+                and not any(x.text == b"=" for x in rest) and not any(x.text in STATEMENT_KEYWORDS for x in rest)
+        if t.text in STATEMENT_KEYWORDS:
+            return False
+    return False
